@@ -66,3 +66,19 @@ Theorem C05_lookup_is_source_lookup : forall s ids key nested,
   _find_attrpath_root nat (fun _ => true) (name_of s) (nested_of s) ids key = find_root s ids key.
 Proof. exact (fun s ids key nested => conj (find_binding_refines s ids key) (conj (find_named_refines s ids key nested) (find_root_refines s ids key))). Qed.
 Print Assumptions C05_lookup_is_source_lookup.
+
+(* the wrapper traversal that picks the set an edit may mutate — `_resolve_target_set_from_expr` REGENERATED from cli/manipulations.py on every run
+   (tools/target2v.py) — for every world of nodes, classes, attributes, scope look-ups, context store and Identifier.value behaviour:
+   what it returns is an attribute set, and a stack of assert / let / parenthesis wrappers of any height around a set yields that very set
+   ("an edit is refused only for the documented reasons, never because of the wrappers") *)
+From Dyn Require Import TargetGen TargetProps.
+Close Scope string_scope. Open Scope list_scope.
+Theorem C05_target_is_a_set : forall (w : world) fuel es s r s', target_top w fuel es s = (RVal r, s') -> w_cls w r = CSet.
+Proof. exact target_top_is_a_set. Qed.
+Print Assumptions C05_target_is_a_set.
+Theorem C05_wrappers_transparent : forall (w : world) ws r sc v st,
+  linked (wN w) (w_cls w) (w_body w) (w_value w) ws r -> w_cls w r = CSet -> NoDup (ws ++ [r]) -> (forall x, In x (ws ++ [r]) -> ~ In x v) ->
+  (forall x, In x (ws ++ [r]) -> scopes_ok (wN w) (wSC w) (w_store w) (w_scopes w) x sc st) ->
+  target w (S (List.length ws)) (hd r ws) sc (v, st) = (RVal r, (r :: rev ws ++ v, st)).
+Proof. exact target_wrappers_transparent. Qed.
+Print Assumptions C05_wrappers_transparent.
